@@ -4,7 +4,7 @@ from spec import instructions as SI
 from ..bits import BV, eq_bit
 from ..interp import State
 from ..values import UNIT, Ref, Struct
-from .common import U8, U16, U32, arg_obj, fn_site, same
+from .common import asm_not_pure, U8, U16, U32, arg_obj, fn_site, same
 
 LEVEL = 'proof'
 PG = 'instructions::port::PortGeneric'
@@ -119,5 +119,6 @@ def run(chk):
     for f in chk.facts['fns']:
         if f['name'].startswith('instructions::port::'):
             blocks += sum(1 for b in f['blocks'] if b['t'] and b['t']['k'] == 'asm')
+    chk.guard('asm-options', 'port.rs', lambda: asm_not_pure(chk, chk.I, 'asm-options', ['src/instructions/port.rs'], 6))
     chk.floor('asm blocks in instructions::port', blocks, 6)
     chk.ob('census', 'no asm block in instructions::port beyond the six port accessors', blocks == 6, 'found %d' % blocks)
